@@ -80,7 +80,8 @@ def _driver(ch):
     f = ch.all("f", list(F))
     g = ch.all("g", ["-"] + list(G))
     xdt = ch.all("xdt", XDT)
-    ydt = "-" if g == "-" else ch.all("ydt", YDT)
+    # operand dtype pairs: both dtypes against a float y, and a float x against an integer y (exporter-side promotion)
+    ydt = "-" if g == "-" else ch.all("ydt", ["f32"] if xdt == "i64" else YDT)
     return {"f": f, "g": g, "xdt": xdt, "ydt": ydt}
 
 
